@@ -29,6 +29,11 @@ func runC18(s *core.Sim, tier string) RunInfo {
 	w.Ch = simhdr.NewChain("sim-chain", 1, time.Now().Add(-10*time.Hour), 3*time.Second)
 	chunk := uint64(core.Pick(s.Tape, "chunk", []int{1, 2, 3, 5, 7, 8, 16, 33, 64}))
 	timeout := core.Pick(s.Tape, "req-timeout", []time.Duration{500 * time.Millisecond, 2 * time.Second})
+	if s.Tape.Coin("descheduled-goroutines", 1, 3) {
+		// now and then a goroutine of the client stays parked for a while (less than a request
+		// timeout), so that another peer's answer can overtake it
+		s.AutoStall = 200 * time.Millisecond
+	}
 	fromH := uint64(3 + s.Tape.Draw("from", 30))
 	maxL := 3 * chunk
 	if maxL > 70 {
